@@ -20,7 +20,7 @@ def statement(renamed, same_str, enforce_new, new_ovr, old_ovr, new_cs, old_cs, 
     ('or', new, old) marker"""
     if new_ovr:
         return 'role:ovr'
-    if renamed and old_ovr in ('arbitrary', 'prefixref'):
+    if renamed and old_ovr in ('arbitrary', 'prefixref', 'deny'):
         return ovr_old_value
     if (not enforce_new) and new_cs != old_cs:
         return ('or', new_cs, old_cs)
@@ -42,6 +42,9 @@ def do_job(root, row, new_cs, old_cs, tier):
         defaults.append(('svc:new2', new_cs, (old_name, old_cs), None))
     elif shared == 2:
         defaults.insert(0, (old_name, 'role:r2 or role:new', (old_name, old_cs), None))
+    elif shared == 3:
+        # ... the same, registered AFTER the renamed policy
+        defaults.append((old_name, 'role:r2 or role:new', (old_name, old_cs), None))
     if old_ovr == 'prefixref':
         defaults.append((new_name + ':forced', 'role:r2', None, None))
     files = {}
@@ -52,6 +55,9 @@ def do_job(root, row, new_cs, old_cs, tier):
         files[old_name] = ovr_old_value
     elif old_ovr == 'alias':
         files[old_name] = 'rule:' + new_name
+    elif old_ovr == 'deny':
+        ovr_old_value = '!'               # an explicit deny is an override like any other
+        files[old_name] = '!'
     elif old_ovr == 'prefixref':
         # a reference to a DIFFERENT rule whose name merely begins with the new name: a real override
         ovr_old_value = 'rule:' + new_name + ':forced'
@@ -83,7 +89,7 @@ def do_job(root, row, new_cs, old_cs, tier):
     mod = model_history([enforce_new, enc_defaults(defaults), 1], [[fs.wire(), 0]])[0]
     if mod != obs:
         corr = (repr(row) + repr((new_cs, old_cs)), mod, obs)
-    names = [new_name] + (['svc:new2'] if shared == 1 else [])
+    names = [new_name] + (['svc:new2'] if shared == 1 else []) + ([old_name] if shared in (2, 3) else [])
     spec = run_batch([[11, [enforce_new, enc_defaults(defaults), 1], fs.wire(), [S(n) for n in names]]])[0]
     for n, sp in zip(names, spec):
         want_s = unS(sp[0]) if sp else None
@@ -179,11 +185,11 @@ def _worker(args):
 def all_rows():
     rows = []
     for renamed, same_str, enforce_new, new_ovr, old_ovr, where, shared in itertools.product(
-            [True, False], [True, False], [True, False], [False, True], ['absent', 'arbitrary', 'alias', 'prefixref'],
-            ['main', 'dir', 'both', 'dironly'], [0, 1, 2]):
+            [True, False], [True, False], [True, False], [False, True], ['absent', 'arbitrary', 'alias', 'prefixref', 'deny'],
+            ['main', 'dir', 'both', 'dironly'], [0, 1, 2, 3]):
         if not renamed and old_ovr != 'absent':
             continue        # same-name deprecation: an "old name" override IS a new-name override
-        if shared == 2 and not (renamed and old_ovr == 'absent'):
+        if shared in (2, 3) and not (renamed and old_ovr == 'absent'):
             continue        # 2: the old name is itself a registered policy with a same-name deprecation, registered first
         rows.append((renamed, same_str, enforce_new, new_ovr, old_ovr, where, shared))
     return rows
